@@ -109,6 +109,9 @@ def shard(args):
         if i % 8 == 5:
             # directed: Expect: 100-continue requests answered with a final 4xx while later requests are already in flight
             opts.update(p_expect=0.7, expect_4xx=True)
+        if i % 8 == 3:
+            # directed: interim 100 (Continue) responses, whatever the state of the request they belong to
+            opts.update(p_expect=0.5, p_interim=0.6)
         ex = grammar.gen_exchange(seed * 1000003 + i, opts)
         ops, readings, style = make_history(ex, r)
         cfg = {'PERSONALITY': r.randrange(10), 'URLENC_PARSER': r.randrange(2), 'DUMP': hxb.DUMP_TX, 'AUTO_DESTROY': 0,
